@@ -49,11 +49,11 @@ int main(int argc, char** argv)
         { std::string d; for (int p = 0; p <= np; p++) d += std::to_string(fc[p]) + ","; snprintf(CTX, 96, "it%d kind%d style%d n%d fc=%s", it, kind, style, n, d.c_str()); }
         Partition* part = new Partition(n, n, ln, ln, fc[rank], fc[rank]);
         char buf[96];
-        for (int tap = 0; tap <= (np > 1 ? 1 : 0); tap++)
+        for (int tap = 0; tap <= (np > 1 ? 2 : 0); tap++)      // 0 standard, 1 three-step node-aware, 2 two-step node-aware
         for (int derived = 0; derived <= 1; derived++)
         {
             CURTAP = tap;
-            snprintf(buf, 96, "build/%s%s/kind%d/style%d/it%d/n%d", tap ? "tap" : "std", derived ? "/derived" : "", kind, style, it, n); AB(buf);
+            snprintf(buf, 96, "build/%s%s/kind%d/style%d/it%d/n%d", tap == 2 ? "tap2" : tap ? "tap" : "std", derived ? "/derived" : "", kind, style, it, n); AB(buf);
             // derived package: keep a random subset of the off-process columns (column filtering), same local numbering
             std::vector<int> keep(on, 1), col_to_new(on, -1), my_off;
             std::vector<std::vector<int>> offx = off;
@@ -69,7 +69,7 @@ int main(int argc, char** argv)
             my_off = offx[rank];
             CommPkg* comm; ParComm* pc = nullptr; CommPkg* parent = nullptr;
             if (!tap) { ParComm* base = new ParComm(part, off[rank]); if (derived) { pc = new ParComm(base, col_to_new); parent = base; } else pc = base; comm = pc; }
-            else { TAPComm* base = new TAPComm(part, off[rank]); if (derived) { comm = new TAPComm(base, col_to_new, nullptr); parent = base; } else comm = base; }
+            else { TAPComm* base = tap == 1 ? new TAPComm(part, off[rank]) : new TAPComm(part, off[rank], false); if (derived) { comm = new TAPComm(base, col_to_new, nullptr); parent = base; } else comm = base; }
             int onx = (int)my_off.size();
 
             // ---- package structure (standard package only; the node-aware internals belong to C04)
@@ -80,7 +80,7 @@ int main(int argc, char** argv)
             }
             // ---- forward exchange, double and int payloads, block sizes 1..3
             for (int isint = 0; isint <= 1; isint++) for (int bs = 1; bs <= 3; bs++) {
-                snprintf(buf, 96, "fwd/%s%s/%s/bs%d", tap ? "tap" : "std", derived ? "/derived" : "", isint ? "int" : "double", bs); AB(buf);
+                snprintf(buf, 96, "fwd/%s%s/%s/bs%d", tap == 2 ? "tap2" : tap ? "tap" : "std", derived ? "/derived" : "", isint ? "int" : "double", bs); AB(buf);
                 std::vector<long long> mine(ln * bs), got;
                 vh::Rng gl(E.seed * 977 + it * 31 + rank * 7 + bs + 100 * isint); for (auto& v : mine) v = gl.range(-99, 99);
                 if (isint) { std::vector<int> x(mine.begin(), mine.end()); std::vector<int>& r = comm->communicate(x, bs); got.assign(r.begin(), r.begin() + std::min((size_t)onx * bs, r.size())); }
@@ -91,7 +91,7 @@ int main(int argc, char** argv)
             // ---- reverse exchange with sum / max / select, block sizes 1..2, int and double
             for (int fn = 0; fn < 3; fn++) for (int bs = 1; bs <= 2; bs++) for (int isint = 0; isint <= 1; isint++) {
                 if (fn == 2 && (!isint || bs != 1)) continue;      // select is used by the library on int labels
-                snprintf(buf, 96, "rev/%s%s/fn%d/bs%d/%s", tap ? "tap" : "std", derived ? "/derived" : "", fn, bs, isint ? "int" : "double"); AB(buf);
+                snprintf(buf, 96, "rev/%s%s/fn%d/bs%d/%s", tap == 2 ? "tap2" : tap ? "tap" : "std", derived ? "/derived" : "", fn, bs, isint ? "int" : "double"); AB(buf);
                 vh::Rng gl(E.seed * 1291 + it * 37 + rank * 11 + bs + 10 * fn);
                 std::vector<long long> y(onx * bs), init(ln * bs), res;
                 for (int j = 0; j < onx; j++) for (int t = 0; t < bs; t++)
@@ -144,7 +144,7 @@ int main(int argc, char** argv)
                 vh::Layout L; L.kind = 1; L.rows = sizes; L.cols = sizes; L.first_row.assign(fc.begin(), fc.end() - 1); L.first_col = L.first_row;
                 ParCOOMatrix* Ac = vh::assemble_coo(t, L, rank); ParCSRMatrix* A = Ac->to_ParCSR();
                 for (int hv = 1; hv >= 0; hv--) {
-                    snprintf(buf, 96, "mat/%s/vals%d", tap ? "tap" : "std", hv); AB(buf);
+                    snprintf(buf, 96, "mat/%s/vals%d", tap == 2 ? "tap2" : tap ? "tap" : "std", hv); AB(buf);
                     CSRMatrix* R = comm->communicate(A, (bool)(hv != 0));
                     std::vector<long long> flat = { R->n_rows };
                     for (int i = 0; i < R->n_rows; i++) { flat.push_back(R->idx1[i + 1] - R->idx1[i]);
@@ -155,7 +155,7 @@ int main(int argc, char** argv)
                 }
                 // reverse row exchange: one row per off-process column, combined at the owners
                 {
-                    snprintf(buf, 96, "matT/%s", tap ? "tap" : "std"); AB(buf);
+                    snprintf(buf, 96, "matT/%s", tap == 2 ? "tap2" : tap ? "tap" : "std"); AB(buf);
                     vh::Rng gl(E.seed * 409 + it * 17 + rank * 3);
                     std::vector<int> rowptr(onx + 1, 0), cols; std::vector<double> vals;
                     for (int j = 0; j < onx; j++) { int len = gl.below(3); for (int k = 0; k < len; k++) { cols.push_back(gl.below(n)); vals.push_back(gl.range(1, 9)); } rowptr[j + 1] = (int)cols.size(); }
